@@ -239,6 +239,91 @@ pub fn scenario_stream(set: u8, bytes: [u8; 4], n: u8, verbose: bool) -> bool {
     ok
 }
 
+/// C07: after the last of `n` (<= 4) bytes of arbitrary garbage produced an event or an error, three probe bytes decode
+/// exactly as on a fresh decoder; and 'no event yet' is never returned for more than two (Set 2) / one (Set 1) consecutive bytes
+pub fn scenario_resync(set: u8, bytes: [u8; 4], n: u8, probe: [u8; 3], verbose: bool) -> bool {
+    let mut d1 = ScancodeSet1::new();
+    let mut d2 = ScancodeSet2::new();
+    let mut f1 = ScancodeSet1::new();
+    let mut f2 = ScancodeSet2::new();
+    let mut ok = true;
+    let mut nones: u8 = 0;
+    let mut last_none = true;
+    let limit: u8 = if set == 1 { 1 } else { 2 };
+    let mut i = 0usize;
+    while i < 4 {
+        if (i as u8) < n {
+            let r = if set == 1 { d1.advance_state(bytes[i]) } else { d2.advance_state(bytes[i]) };
+            last_none = r == Ok(None);
+            if last_none {
+                nones += 1;
+            } else {
+                nones = 0;
+            }
+            say!(verbose, "step {}: Set {} byte 0x{:02X} -> {:?}", i, set, bytes[i], r);
+            if nones > limit {
+                say!(verbose, "         <-- 'no event yet' for {} consecutive bytes (limit {})", nones, limit);
+                ok = false;
+            }
+        }
+        i += 1;
+    }
+    if n > 0 && !last_none {
+        let mut j = 0usize;
+        while j < 3 {
+            let a = if set == 1 { d1.advance_state(probe[j]) } else { d2.advance_state(probe[j]) };
+            let b = if set == 1 { f1.advance_state(probe[j]) } else { f2.advance_state(probe[j]) };
+            say!(verbose, "probe {}: byte 0x{:02X} -> {:?}   fresh decoder {:?}{}", j, probe[j], a, b, if a == b { "" } else { "   <-- MISMATCH (history leaked past an event/error)" });
+            if a != b {
+                ok = false;
+            }
+            j += 1;
+        }
+    }
+    ok
+}
+
+/// C19: `[prefix] c` is a press of K  iff  its break form is a release of the same K (Set 2: `[prefix] F0 c`; Set 1: `[prefix] c|0x80`)
+pub fn scenario_pairing(set: u8, prefix: u8, code: u8, verbose: bool) -> bool {
+    let mut m1 = ScancodeSet1::new();
+    let mut m2 = ScancodeSet2::new();
+    let mut b1 = ScancodeSet1::new();
+    let mut b2 = ScancodeSet2::new();
+    if prefix == 0xE0 || prefix == 0xE1 {
+        if set == 1 {
+            let _ = m1.advance_state(prefix);
+            let _ = b1.advance_state(prefix);
+        } else {
+            let _ = m2.advance_state(prefix);
+            let _ = b2.advance_state(prefix);
+        }
+    }
+    if set == 1 {
+        if code >= 0x80 {
+            return true;
+        }
+    } else if code == 0xE0 || code == 0xE1 || code == 0xF0 || code == 0x00 || code == 0xAA {
+        return true;
+    }
+    let mk = if set == 1 { m1.advance_state(code) } else { m2.advance_state(code) };
+    let br = if set == 1 {
+        b1.advance_state(code | 0x80)
+    } else {
+        let _ = b2.advance_state(0xF0);
+        b2.advance_state(code)
+    };
+    let down = match &mk {
+        Ok(Some(e)) if e.state == KeyState::Down => Some(e.code),
+        _ => None,
+    };
+    let up = match &br {
+        Ok(Some(e)) if e.state == KeyState::Up => Some(e.code),
+        _ => None,
+    };
+    say!(verbose, "Set {} prefix 0x{:02X} code 0x{:02X}: make -> {:?}, break -> {:?}{}", set, prefix, code, mk, br, if down == up { "" } else { "   <-- MISMATCH (press and release do not pair)" });
+    down == up
+}
+
 // ---------------------------------------------------------------- C04 / C14
 pub fn x_initial_mods() -> Modifiers {
     Modifiers { lshift: false, rshift: false, lctrl: false, rctrl: false, numlock: true, capslock: false, lalt: false, ralt: false, rctrl2: false }
@@ -270,9 +355,13 @@ pub fn x_is_modifier_key(k: KeyCode) -> bool {
 }
 
 /// A layout that returns an encoding of exactly the (key, modifiers, mode) triple it was consulted with.
-pub struct RecordingLayout;
+pub struct RecordingLayout(pub u8);
 
 pub fn x_encode(k: KeyCode, m: &Modifiers, h: HandleControl) -> DecodedKey {
+    x_encode_tag(k, m, h, 0)
+}
+
+pub fn x_encode_tag(k: KeyCode, m: &Modifiers, h: HandleControl, tag: u8) -> DecodedKey {
     let mb = (m.lshift as u32)
         | (m.rshift as u32) << 1
         | (m.lctrl as u32) << 2
@@ -283,7 +372,7 @@ pub fn x_encode(k: KeyCode, m: &Modifiers, h: HandleControl) -> DecodedKey {
         | (m.ralt as u32) << 7
         | (m.rctrl2 as u32) << 8;
     let hb = if h == HandleControl::MapLettersToUnicode { 1u32 } else { 0u32 };
-    let v = 0x10000 + ((k as u32) << 10) + (hb << 9) + mb;
+    let v = 0x10000 + ((tag as u32 & 1) << 17) + ((k as u32) << 10) + (hb << 9) + mb;
     match char::from_u32(v) {
         Some(c) => DecodedKey::Unicode(c),
         None => DecodedKey::RawKey(k),
@@ -292,11 +381,11 @@ pub fn x_encode(k: KeyCode, m: &Modifiers, h: HandleControl) -> DecodedKey {
 
 impl KeyboardLayout for RecordingLayout {
     fn map_keycode(&self, keycode: KeyCode, modifiers: &Modifiers, handle_ctrl: HandleControl) -> DecodedKey {
-        x_encode(keycode, modifiers, handle_ctrl)
+        x_encode_tag(keycode, modifiers, handle_ctrl, self.0)
     }
 }
 
-pub fn x_decode_out(m: &Modifiers, h: HandleControl, code: KeyCode, state: KeyState) -> Option<DecodedKey> {
+pub fn x_decode_out(m: &Modifiers, h: HandleControl, code: KeyCode, state: KeyState, tag: u8) -> Option<DecodedKey> {
     if state != KeyState::Down {
         None
     } else if code == KeyCode::NumpadLock && m.rctrl2 {
@@ -304,7 +393,7 @@ pub fn x_decode_out(m: &Modifiers, h: HandleControl, code: KeyCode, state: KeySt
     } else if x_is_modifier_key(code) {
         Some(DecodedKey::RawKey(code))
     } else {
-        Some(x_encode(code, m, h))
+        Some(x_encode_tag(code, m, h, tag))
     }
 }
 
@@ -327,27 +416,55 @@ pub fn x_mode(b: bool) -> HandleControl {
 /// up to three key events (key index into KeyCode, state 0..3) through a real Keyboard with the recording layout; before
 /// event i the Ctrl mode is set to mode bit i. Decoded keys and reported modifiers are compared with the specification.
 pub fn scenario_events(keys: [u8; 3], states: [u8; 3], modes: u8, n: u8, verbose: bool) -> bool {
-    let mut kb = Keyboard::new(ScancodeSet2::new(), RecordingLayout, HandleControl::Ignore);
+    scenario_events_aspect(keys, states, modes, n, 3, verbose)
+}
+
+/// `aspect`: bit 0 = compare the reported modifiers (C04), bit 1 = compare the decoded keys and the mode (C14).
+/// Bits 3..5 of `modes` schedule a layout change (to the recording layout with tag 1 / 0) before event i.
+pub fn scenario_events_aspect(keys: [u8; 3], states: [u8; 3], modes: u8, n: u8, aspect: u8, verbose: bool) -> bool {
+    // modifiers are observable only through Keyboard::get_modifiers; layout changes only through EventDecoder::change_layout:
+    // the same events go through both objects
+    let mut kb = Keyboard::new(ScancodeSet2::new(), RecordingLayout(0), HandleControl::Ignore);
+    let mut ed = EventDecoder::new(RecordingLayout(0), HandleControl::Ignore);
     let mut m = x_initial_mods();
     let mut ok = true;
+    let mut tag = 0u8;
+    let mut cur = HandleControl::Ignore;
     let mut i = 0usize;
     while i < 3 {
         if (i as u8) < n {
             let h = x_mode((modes >> i) & 1 != 0);
-            kb.set_ctrl_handling(h);
-            if kb.get_ctrl_handling() != h {
+            if h != cur {
+                // only a real change calls the setter, so that schedules without any setter call are covered too
+                kb.set_ctrl_handling(h);
+                ed.set_ctrl_handling(h);
+                cur = h;
+                say!(verbose, "step {}: set_ctrl_handling({:?})", i, h);
+            }
+            if (modes >> (i + 3)) & 1 != 0 {
+                tag = 1 - tag;
+                ed.change_layout(RecordingLayout(tag));
+                say!(verbose, "step {}: change_layout(recording layout #{})", i, tag);
+            }
+            if aspect & 2 != 0 && (kb.get_ctrl_handling() != h || ed.get_ctrl_handling() != h) {
                 say!(verbose, "step {}: get_ctrl_handling() does not return the mode just set", i);
                 ok = false;
             }
             let k = x_keycode(keys[i]);
             let s = x_state(states[i]);
             let r = kb.process_keyevent(KeyEvent::new(k, s));
-            let e = x_decode_out(&m, h, k, s);
+            let r2 = ed.process_keyevent(KeyEvent::new(k, s));
+            let e = x_decode_out(&m, h, k, s, 0);
+            let e2 = x_decode_out(&m, h, k, s, tag);
             let m2 = x_mods_step(&m, k, s);
             let got = kb.get_modifiers().clone();
             say!(verbose, "step {}: mode {:?}, event {:?}/{:?} -> {:?}   expected {:?}{}", i, h, k, s, r, e, if r == e { "" } else { "   <-- MISMATCH" });
+            say!(verbose, "         EventDecoder with layout #{} -> {:?}   expected {:?}{}", tag, r2, e2, if r2 == e2 { "" } else { "   <-- MISMATCH" });
             say!(verbose, "         modifiers now {:?}\n         expected      {:?}{}", got, m2, if got == m2 { "" } else { "   <-- MISMATCH" });
-            if r != e || got != m2 {
+            if aspect & 2 != 0 && (r != e || r2 != e2) {
+                ok = false;
+            }
+            if aspect & 1 != 0 && got != m2 {
                 ok = false;
             }
             m = m2;
@@ -363,9 +480,9 @@ pub fn scenario_events(keys: [u8; 3], states: [u8; 3], modes: u8, n: u8, verbose
 /// op: 0 add_bit(arg&1), 1 add_word(arg), 2 add_byte(arg), 3 clear, 4 process_keyevent(key arg, state arg>>8), 5 set_ctrl_handling
 pub fn scenario_keyboard(set: u8, bits: u16, pre_bits: u8, pre: [u8; 2], pre_bytes: u8, op: u8, arg: u16, probe: u8, verbose: bool) -> bool {
     if set == 1 {
-        x_keyboard_run(Keyboard::new(ScancodeSet1::new(), RecordingLayout, HandleControl::Ignore), ScancodeSet1::new(), bits, pre_bits, pre, pre_bytes, op, arg, probe, verbose)
+        x_keyboard_run(Keyboard::new(ScancodeSet1::new(), RecordingLayout(0), HandleControl::Ignore), ScancodeSet1::new(), bits, pre_bits, pre, pre_bytes, op, arg, probe, verbose)
     } else {
-        x_keyboard_run(Keyboard::new(ScancodeSet2::new(), RecordingLayout, HandleControl::Ignore), ScancodeSet2::new(), bits, pre_bits, pre, pre_bytes, op, arg, probe, verbose)
+        x_keyboard_run(Keyboard::new(ScancodeSet2::new(), RecordingLayout(0), HandleControl::Ignore), ScancodeSet2::new(), bits, pre_bits, pre, pre_bytes, op, arg, probe, verbose)
     }
 }
 
@@ -379,7 +496,7 @@ fn x_lift<S: ScancodeSet>(s: &mut S, r: Result<Option<u8>, Error>) -> Result<Opt
 
 fn x_keyboard_run<S: ScancodeSet>(mut kb: Keyboard<RecordingLayout, S>, mut s: S, bits: u16, pre_bits: u8, pre: [u8; 2], pre_bytes: u8, op: u8, arg: u16, probe: u8, verbose: bool) -> bool {
     let mut p = Ps2Decoder::new();
-    let mut e = EventDecoder::new(RecordingLayout, HandleControl::Ignore);
+    let mut e = EventDecoder::new(RecordingLayout(0), HandleControl::Ignore);
     let mut ok = true;
     // bring the scancode stage into a prefix context
     let mut i = 0usize;
@@ -394,11 +511,16 @@ fn x_keyboard_run<S: ScancodeSet>(mut kb: Keyboard<RecordingLayout, S>, mut s: S
         }
         i += 1;
     }
-    // a held modifier so that the event stage is not in its initial state
-    let a = kb.process_keyevent(KeyEvent::new(KeyCode::RShift, KeyState::Down));
-    let b = e.process_keyevent(KeyEvent::new(KeyCode::RShift, KeyState::Down));
-    if a != b {
-        ok = false;
+    // every momentary modifier held and both locks toggled, so that a disturbed flag of the event stage shows in the probe
+    let held = [KeyCode::NumpadLock, KeyCode::CapsLock, KeyCode::LShift, KeyCode::RShift, KeyCode::LControl, KeyCode::RControl, KeyCode::LAlt, KeyCode::RAltGr, KeyCode::RControl2];
+    let mut hi = 0usize;
+    while hi < 9 {
+        let a = kb.process_keyevent(KeyEvent::new(held[hi], KeyState::Down));
+        let b = e.process_keyevent(KeyEvent::new(held[hi], KeyState::Down));
+        if a != b {
+            ok = false;
+        }
+        hi += 1;
     }
     // a partial frame
     let mut j: u8 = 0;
@@ -414,7 +536,7 @@ fn x_keyboard_run<S: ScancodeSet>(mut kb: Keyboard<RecordingLayout, S>, mut s: S
         }
         j += 1;
     }
-    say!(verbose, "state: {} bits pending, {} prefix byte(s) fed, RShift held", pre_bits, pre_bytes);
+    say!(verbose, "state: {} bits pending, {} prefix byte(s) fed, all modifiers held, locks toggled", pre_bits, pre_bytes);
     // the operation under test
     match op % 6 {
         0 => {
@@ -476,6 +598,12 @@ fn x_keyboard_run<S: ScancodeSet>(mut kb: Keyboard<RecordingLayout, S>, mut s: S
     let b = e.process_keyevent(KeyEvent::new(KeyCode::A, KeyState::Down));
     say!(verbose, "probe: key A -> {:?}   separate event stage {:?}{}", a, b, if a == b { "" } else { "   <-- MISMATCH (event stage disturbed)" });
     if a != b {
+        ok = false;
+    }
+    let a = kb.process_keyevent(KeyEvent::new(KeyCode::NumpadLock, KeyState::Down));
+    let b = e.process_keyevent(KeyEvent::new(KeyCode::NumpadLock, KeyState::Down));
+    if a != b {
+        say!(verbose, "probe: NumpadLock -> {:?}   separate event stage {:?}   <-- MISMATCH (event stage disturbed)", a, b);
         ok = false;
     }
     let a = kb.add_byte(probe);
